@@ -29,7 +29,7 @@ from mc.ref import dataset as REF
 
 ID = "C16"
 LEVEL = "exploration"
-BUDGET = {"quick": 300, "thorough": 1500}
+BUDGET = {"quick": 300, "thorough": 3600}
 CHUNK = 16
 RULE = (
     "windows: one case per (image, column ROI), looping every row ROI x margins {0,1,2}^4, non-trivial when the window "
